@@ -4,7 +4,7 @@ from .fam_collector import CollectorFam
 from .prop_C03 import REPLICA_TRUST
 
 PROP = Property(
-    "C08", ["HsVerif.Props.C08", "HsVerif.Props.C08Agg", "HsVerif.Props.C08Gen"], [CollectorFam(), ReplicaFam("c08")],
+    "C08", ["HsVerif.Props.C08", "HsVerif.Props.C08Agg", "HsVerif.Props.C08Gen", "HsVerif.Props.C08GenCor"], [CollectorFam(), ReplicaFam("c08")],
     facts=[
         # the collector's only field is written by the translated methods only (Props/C08Gen); the extraction goes by field
         # NAME: `New` is the Synchronizer's own field `timeouts` (the collector object) in its composite literal
